@@ -22,7 +22,8 @@ ASSUMPTIONS = [
     "problems whose initial state violates their own invariants are rejected by get_initial_state (documented) and skipped",
     "problems outside UPSequentialSimulator.supported_kind() are skipped (e.g. And/Forall of Always is TRAJECTORY_CONSTRAINTS)",
     "action, fluent and quantifier parameters are user-typed (objects); Boolean / bounded-integer parameters are not generated",
-    "no simulated effects and no interpreted functions in the generated problems (interpreted functions are tables in the model)",
+    "no simulated effects; interpreted functions (g : int -> int, gb : int -> bool, in ~30% of the problems) are total tables over "
+    "the range of their bounded-integer arguments, shipped with the case (user callables themselves are not modelled)",
     "grounding is the grounder's documented contract: instances with statically conflicting unconditional effects or "
     "preconditions simplifying to FALSE are invalid (None) even if the conflicting values coincide in a particular state",
     "multi-variable Exists are written nested: Simplifier.walk_exists rebuilds its variable list from a Python set, so its "
@@ -69,11 +70,12 @@ def make_case(rng, tier):
         ps = simlib.gen_problem(rng)
         if ps is None:
             continue
+        fns = simlib.gen_tables(rng) if simlib.uses_ifuns(ps) else []
         try:
-            real = simlib.make_real(ps)
+            real = simlib.make_real(ps, fns)
         except simlib.Skip:
             continue
-        return simlib.payload(ps, simlib.bfs_ops(real, depth, cap))
+        return simlib.payload(ps, simlib.bfs_ops(real, depth, cap), fns)
 
 
 def cases(rng, tier):
@@ -83,7 +85,7 @@ def cases(rng, tier):
 
 
 def impl(payload):
-    real = simlib.Real(payload[1])
+    real = simlib.Real(payload[1], payload[2][1:])
     return real.run(payload[3][1:])[0]
 
 
@@ -115,12 +117,14 @@ def oracle(payload):
 
 
 def shrink(payload):
+    fns = payload[2][1:]
+
     def rebuild(ps):
         try:
-            real = simlib.make_real(ps)
+            real = simlib.make_real(ps, fns)
         except simlib.Skip:
             return None
-        return simlib.payload(ps, simlib.bfs_ops(real, 2, 4))
+        return simlib.payload(ps, simlib.bfs_ops(real, 2, 4), fns)
     yield from simlib.shrink_problem(payload, rebuild)
 
 
